@@ -55,7 +55,11 @@ func buildFamily(x *Executor, seed uint64, idx int) (*family, int, error) {
 		// A family whose grammar is not LALR(1): every generation fails, and
 		// what it prints (--report lists the conflicts) must still be the same
 		// for every map order, history and working directory.
-		base = specgen.GenerateConflicting(r.Uint64())
+		kind := -1
+		if idx%8 == 3 {
+			kind = 4 // reduce/reduce between differently named rules: several conflict lines per state in --report
+		}
+		base = specgen.GenerateConflictingKind(r.Uint64(), kind)
 		gv = specgen.GoVariant{FileName: "parser.go"}
 		f := &family{idx: idx}
 		f.variants = append(f.variants, makeVariant("v0", base, gv, "conflicting grammar"))
